@@ -32,3 +32,6 @@ open SamVerif.C01
 #print axioms cpe_anyslot_counterexample
 #print axioms cpe_prog_unused_many_preserves
 #print axioms launcher_independent
+#print axioms typePermit_finished_enum_iff
+#print axioms unboxed_over_int31_payload_counterexample
+#print axioms unboxed_over_unboxed_payload_counterexample
